@@ -33,6 +33,22 @@ CONFIG = dict(
              'remembered; octopus + comb with a failing first analysis; thorough 10^4 diamonds).  Further input attributes since round 3: a people dictionary given '
              'from outside that does not know every developer (AuthorMissing is the author of commits, merges included; field pd), two files of one commit with the '
              'same content (two changes of one commit reaching one blob).  '
+             'Round 4 (content of the values; kinds bytes-*, direct-bytes, direct-widths): the file contents are no longer ASCII words only - lines of legacy 8-bit text, '
+             'bytes that never occur in UTF-8, truncated / overlong / surrogate sequences, U+FFFD as real content, BOMs, tabs, CRLF / lone CR, NBSP / U+2028 / U+3000, '
+             'leading / trailing / inner white space, upper / lower case, empty lines; the variants a normalisation would make equal face each other in ONE case (every '
+             'pair of variants of seven groups, one becoming the other); white-space-only lines as the unterminated last line of a file (12 kinds of blank line x '
+             'completed / appended / kept / replaced, exhaustive); empty, BOM-only and blank-only blobs; symbolic links (a file becomes a link and back, the target '
+             'changes); file names that are case variants of each other or share a prefix (a.go, A.go, a.go.go, d/a.go, f1 / f10 / f100).  The options of the upstream '
+             'FileDiff vary WITH them and with the older options (hibernation, rename threshold, empty commits, people dictionary, skewed ticks, mode flips, merges and '
+             'octopus merges of the earlier generators whose contents are rewritten line by line): FileDiff.WhitespaceIgnore in half of these cases (the declared truth then '
+             'takes lines that differ in U+0020 only for one line; the line COUNTS stay those of the declared contents), FileDiff.NoCleanup in a quarter, FileDiff.Timeout '
+             '1 / 1000 / 100000 ms; the harness checks by reflection that the item took them.  A diff script that is not the minimal one must still grow the file by the '
+             'declared number of lines and - without WhitespaceIgnore - must not insert / delete FEWER lines than the minimal diff of the declared bytes.  direct: blobs '
+             'of eight content classes for inserted / deleted / modified entries, blob hashes chosen by the harness that agree in their first 1, 2, 4, 7, 8, 16 bytes, '
+             'counts and numbers of changes per call at 9, 10, 11, 99, 100, 101, 999, 1000, 1001 (pipe: that many files changed by one commit).  '
+             'prefix-merges: two independent merge commits whose HASHES agree in their first 1, 2, 4, 6, 7, 8 (thorough 9, 10) hex digits (the harness searches the nonces '
+             'of the two commit messages: birthday search over the encoded commits), joined by a third merge, in three variants (both change files; one equals a parent; '
+             'same tick and developer), both settings of ConsiderEmptyCommits, hibernation distance 0..2.  '
              'Non-trivial = pipe / scale / reuse case with >=3 commits or direct case with a script of >=2 edits; distinct = distinct '
 
              'declared input (history / segments / change list + options).',
